@@ -6,7 +6,7 @@ class C03(Spec):
     drv = "drv_c03"
     harness = "h_c03"
     lean_deps = ("C01", "C02")
-    required_theorems = ("C03.proof_complete", "C03.proof_complete_bytes", "C03.proof_sound",
+    required_theorems = ("C03.proof_complete", "C03.proof_complete_bytes", "C03.proof_sound", "C03.proof_sound_located",
                          "C03.verify_other_root", "C03.verify_total", "C03.membership_forgery",
                          "C03.membership_forgery_value")
     refuted = ("C03.membership_forgery", "C03.membership_forgery_value")
